@@ -93,7 +93,7 @@ pub fn mentions(stmts: &[Stmt], name: &str) -> bool {
         match e {
             Expr::Lit(..) => false,
             Expr::Name(x) => x == n,
-            Expr::Un(_, a) | Expr::Random(a) | Expr::Group(a) => ex(a, n),
+            Expr::Un(_, a) | Expr::Random(a) | Expr::Group(a) | Expr::Raw(_, a) => ex(a, n),
             Expr::Bin(_, a, b) | Expr::SignExt(a, b) => ex(a, n) || ex(b, n),
             Expr::Ite(c, a, b) => ex(c, n) || ex(a, n) || ex(b, n),
         }
